@@ -109,12 +109,30 @@ def extract_signals():
     return sigs, []
 
 
+def extract_misc():
+    """the unstable features (src/unstable_feature.rs) and the default environment file name (src/load_dotenv.rs)"""
+    notes = []
+    src = open(os.path.join(C.REPO, "src", "unstable_feature.rs")).read()
+    m = re.search(r"pub\(crate\) enum UnstableFeature \{(.*?)\n\}", src, re.S)
+    feats = re.findall(r"^\s*([A-Z][A-Za-z]*),", m.group(1), re.M) if m else None
+    if not feats:
+        notes.append("UnstableFeature enum not recognised in src/unstable_feature.rs")
+        feats = None
+    src = open(os.path.join(C.REPO, "src", "load_dotenv.rs")).read()
+    m = re.search(r'dotenv_filename\.map_or\("([^"]*)"', src)
+    dflt = m.group(1) if m else None
+    if dflt is None:
+        notes.append("default environment file name not recognised in src/load_dotenv.rs")
+    return feats, dflt, notes
+
+
 def regenerate():
     """Returns (changed, notes)."""
     functions, constants, names, limit, notes = extract()
     attributes, settings, notes2 = extract_syntax_tables()
     signals, notes3 = extract_signals()
-    notes = notes + notes2 + notes3
+    feats, dotenv_default, notes4 = extract_misc()
+    notes = notes + notes2 + notes3 + notes4
     old = open(OUT).read() if os.path.exists(OUT) else ""
 
     def keep(tag):
@@ -164,7 +182,17 @@ def regenerate():
                      "def signalTable : List (String × Nat) := [" + ", ".join("(%s, %d)" % (lean_str(n), v) for n, v in signals) + "]\n")
     else:
         parts.append(keep("signals"))
-    parts.append("-- END signals\n\nend Just.Generated\n")
+    parts.append("-- END signals\n\n-- BEGIN unstable\n")
+    if feats is not None:
+        parts.append("/-- `enum UnstableFeature` (src/unstable_feature.rs) -/\ndef unstableFeatures : List String := [" + ", ".join(lean_str(n) for n in feats) + "]\n")
+    else:
+        parts.append(keep("unstable"))
+    parts.append("-- END unstable\n\n-- BEGIN dotenv\n")
+    if dotenv_default is not None:
+        parts.append("/-- the environment file searched for when no name is given (src/load_dotenv.rs) -/\ndef defaultDotenvName : String := %s\n" % lean_str(dotenv_default))
+    else:
+        parts.append(keep("dotenv"))
+    parts.append("-- END dotenv\n\nend Just.Generated\n")
     new = "".join(parts)
     if new != old:
         os.makedirs(os.path.dirname(OUT), exist_ok=True)
